@@ -63,7 +63,7 @@ Fixpoint pages_eqb (q : qfilter) (sts : list store) (ms : list (option opage)) (
   end.
 
 Definition check_run (st0 : store) (q : qfilter) (start : pos_t) (steps : list pstep) (observed : list opage) : bool :=
-  let rs := run_from repo_clears_fields (has_filter q) (flt_of q) choose_min st0 start steps in
+  let rs := run_from repo_clears_fields (has_filter q) (flt_of q) choose_min repo_strict_pos st0 start steps in
   pages_eqb q (stores st0 steps) (map (page_of st0) rs) observed.
 
 (* a large single-partition store of generated events (timestamp 5000+i, message "k", no fields), given by its
